@@ -2,7 +2,7 @@
 import json
 from vv import gen
 from vv import c16_cond as cond
-from vv.c16_util import enc, dec, xmember, xmember1, nxt
+from vv.c16_util import enc, dec, xmember, xmember1, nxt, pack_tree, case_tree
 
 CLASSES = ['feasible', 'boundary', 'int-as-float', 'float-as-int', 'near-miss',
            'near-inside', 'wrong-type', 'pybool', 'bool-variant', 'missing',
@@ -255,7 +255,8 @@ def case_staged(tree, name):
 
 def exec_cond(ctx, tree, name, a):
   from vizier import pyvizier as vz
-  case = {'family': 'cond', 'tree': tree, 'variant': name, 'assignment': enc(a)}
+  case = {'family': 'cond', 'tree': tree, 'tree_json': pack_tree(tree), 'variant': name,
+          'assignment': enc(a)}
   staged = bool(case_staged(tree, name))
   if staged:
     # same space, but looked at and queried while it was still flat
@@ -326,4 +327,4 @@ def replay_cond(ctx, case):
     exec_empty_subspace(ctx, case['desc'], dec(case['assignment']), case['labels'],
                         case['class'], case['parent'], dec(case['value']))
   else:
-    exec_cond(ctx, case['tree'], case['variant'], dec(case['assignment']))
+    exec_cond(ctx, case_tree(case), case['variant'], dec(case['assignment']))
